@@ -96,3 +96,19 @@ Proof.
   - unfold ex_curve, maxfold; cbn [pts maxp fold_left snd]. rewrite !nmax_R, zero_0.
     unfold Rmax; repeat destruct Rle_dec; lra.
 Qed.
+
+(* ---- the executable (Q) instance that is run against /repo and the proof (R) instance agree (Transfer*.v) ---- *)
+From Coq Require Import QArith Qreals.
+From Param Require Import Param.
+From SV Require Import Transfer TransferAll.
+Theorem C03_exec_lookup_is_proof_model : forall tbl c c' s, SV_o_Curve_o_curve_R Q R QR c c' ->
+  res_R Q R QR (@power_from_soc Q (QNum tbl) c s) (@power_from_soc R RNum c' (Q2R s)).
+Proof. exact power_from_soc_transfer. Qed.
+Print Assumptions C03_exec_lookup_is_proof_model.
+Theorem C03_exec_clamped_is_proof_model : forall tbl c c' lim pre post, SV_o_Curve_o_curve_R Q R QR c c' ->
+  res_R _ _ (SV_o_Curve_o_curve_R Q R QR) (@clamped Q (QNum tbl) c lim pre post) (@clamped R RNum c' (Q2R lim) (Q2R pre) (Q2R post)).
+Proof. exact clamped_transfer. Qed.
+Print Assumptions C03_exec_clamped_is_proof_model.
+Theorem C03_exec_every_curve_has_a_real_counterpart : forall c : @curve Q, { c' : @curve R & SV_o_Curve_o_curve_R Q R QR c c' }.
+Proof. exact curve_total. Qed.
+Print Assumptions C03_exec_every_curve_has_a_real_counterpart.
